@@ -216,6 +216,46 @@ Example C03_nonvacuous_restart :
 Proof. vm_compute. reflexivity. Qed.
 Print Assumptions C03_nonvacuous_restart.
 
+(* 6b. house validators.  House votes are tallied apart, with their own
+   threshold; every quorum of the theorems above is a CHAMBER quorum: *)
+Theorem C03_house_votes_do_not_count_for_chamber :
+  (* every vote in a chamber tally, hence in any quorum of C03_quorum_meaning, was
+     delivered with a chamber stake look-up or is the voter's own chamber vote *)
+  (forall E H r i t h a n, Counted E H r i t Chamber h a n ->
+     (exists m thr, In (Msg m) H /\ m_sender m = a /\ m_round m = r /\ m_idx m = i /\ m_type m = t /\
+                    m_hash m = h /\ m_stake m = Some (thr, Chamber))
+     \/ (a = self E /\ exists n0 thr, own_view (own E) r i t = Some (n0, thr, Chamber)))
+  (* recording a house vote or flagging a house double voter leaves the chamber tallies untouched *)
+  /\ (forall w t a h n,
+        w_chamber (fst (fst (w_new_vote w t House a h n))) = w_chamber w
+        /\ w_chamber (fst (fst (w_addr_info w t House a h))) = w_chamber w)
+  (* and a house quorum sets no chamber latch (voteOver is kept per validator kind) *)
+  /\ (forall s t t', vst_status (vst_update s t House) t' Chamber = vst_status s t' Chamber).
+Proof. exact (conj counted_chamber_is_chamber (conj house_vote_leaves_chamber house_quorum_sets_no_chamber_latch)). Qed.
+Print Assumptions C03_house_votes_do_not_count_for_chamber.
+
+(* non-vacuity: certificate round, chamber threshold 10 (precommit quorum 6,
+   certificate quorum 5), house threshold 4 (quorum 2): 2 chamber and 3 house
+   precommits, then 5 chamber certificate seats - no commit is announced *)
+Example C03_nonvacuous_house :
+  let E := mkEnv 0 [] true false true true false
+                 [(1, 32768, 1, V.Precommit, 1); (2, 32768, 1, V.Precommit, 1);
+                  (7, 32768, 1, V.Precommit, 1); (8, 32768, 1, V.Precommit, 1); (9, 32768, 1, V.Precommit, 1);
+                  (1, 32768, 1, V.Certificate, 3); (2, 32768, 1, V.Certificate, 2)] in
+  let m t a n k thr := Msg (mkMsg Same t 32768 1 1 1 a true n false (Some (thr, k)) 1) in
+  sends (all_events E init_voter
+    [Cache 1 true; Ctx 32768 1 4 true None;
+     m V.Precommit 1 1 Chamber 10; m V.Precommit 2 1 Chamber 10;
+     m V.Precommit 7 1 House 4; m V.Precommit 8 1 House 4; m V.Precommit 9 1 House 4;
+     m V.Certificate 1 3 Chamber 10; m V.Certificate 2 2 Chamber 10]) = []
+  /\ flat_map fst (run_from E init_voter
+    [Cache 1 true; Ctx 32768 1 4 true None;
+     m V.Precommit 1 1 Chamber 10; m V.Precommit 2 1 Chamber 10;
+     m V.Precommit 7 1 House 4; m V.Precommit 8 1 House 4; m V.Precommit 9 1 House 4;
+     m V.Certificate 1 3 Chamber 10; m V.Certificate 2 2 Chamber 10]) = [].
+Proof. split; vm_compute; reflexivity. Qed.
+Print Assumptions C03_nonvacuous_house.
+
 (* 7. schedules.  The harness also requests a second event (a context change or
    another vote) on another goroutine while a vote's authentication callbacks
    run.  [During m o2] stands for that; its meaning is its linearisation
